@@ -66,6 +66,38 @@ func effectInventory(c *Ctx, rule string, fns []*core.Func, audited map[string]m
 		sort.Strings(names)
 		for _, n := range names {
 			want := audited[fn.Name][n]
+			if got[n] > want && want == 1 {
+				// the same effect written on alternative paths (an early-return copy of the call): still one
+				// effect per run of the function if no path passes two of them
+				g := c.G(fn)
+				name := n
+				inLit := false
+				for _, l := range fn.Lits() {
+					for _, call := range core.Calls(l.Body, true) {
+						if nn, k := fsEffect(fn.Info(), call); k == "effect" && nn == name {
+							inLit = true
+						}
+					}
+				}
+				_, exits := g.CountPaths(g.Entry(), func(nd ast.Node) int {
+					k := 0
+					for _, call := range core.Calls(nd, false) {
+						if nn, kind := fsEffect(fn.Info(), call); kind == "effect" && nn == name {
+							k++
+						}
+					}
+					return k
+				}, nil)
+				twice := false
+				for _, m := range exits {
+					if m&4 != 0 {
+						twice = true
+					}
+				}
+				if !inLit && !twice && len(exits) > 0 {
+					got[n] = want
+				}
+			}
 			c.Check(rule, fn.Key()+" fs-effect:"+n, pos[n], got[n] <= want,
 				"file-system effect not in the audited inventory of this function (found "+itoa(got[n])+", audited "+itoa(want)+"): classify it before trusting the ordering rules")
 		}
